@@ -304,7 +304,7 @@ XalanDOMString::append(
         {
             m_data.insert(getBackInsertIterator(), theString, theString + theLength);
 
-            m_size += theCount;
+            m_size += theLength;
         }
     }
 
